@@ -3,7 +3,7 @@ PLAN = dict(
     rule=("roundtrip: a generated policy-conforming exchange spec (version x fixture certificate P-256/P-384 x MI record size 1..16384 x payload length "
           "relative to the record size x harmless headers in any letter case, multi-valued, empty/OWS values x URL shapes), optionally with "
           "Cache-Control/Expires/Content-Type spread over several field values, or stretched so that the URL / Signature header / header block length "
-          "lands exactly on a format limit (65535/65536, 16384/16385, 524288/524289, thorough: 2^24-1/2^24). Oracle: Write succeeds iff every length fits; "
+          "lands exactly on a format limit (65535/65536, 16384/16385, 524288/524289, thorough: 2^24-1/2^24); one case in four is signed by a Signer object that has already signed an unrelated exchange of a drawn format version (other URLs, dates). Oracle: Write succeeds iff every length fits; "
           "independent layout parse (refsxg) yields the same fields; ReadExchange returns identical version/URL/method/status/normalised headers/"
           "Signature/payload; Verify verdict at date, mid, expires, date-1, expires+1 identical before and after, success returns the original payload and "
           "only inside the window; conforming specs must verify inside the window. Non-trivial: >=2 header fields with one multi-valued, or a length "
